@@ -58,7 +58,7 @@ def main():
                 continue
             jobs.append((name, os.path.join(root, 'patch.diff')))
     out = {}
-    with cf.ProcessPoolExecutor(max_workers=8) as ex:
+    with cf.ProcessPoolExecutor(max_workers=12) as ex:
         for name, res in ex.map(run_one, jobs):
             out[name] = res
             if 'error' in res:
